@@ -144,6 +144,25 @@ class NativeCtx(Ctx):
         return 0
 
 
+class ShimCtx(NativeCtx):
+    """the harness run on the *model* (symbolic pandas) with concrete values: differential test of the model"""
+    mode = "sym"
+
+    def __init__(self, sk, model, outdir, mods):
+        super().__init__(sk, model, outdir)
+        self.mods = mods
+
+    def open(self, ranks_events, **kw):
+        from . import tracegen as TG
+        return TG.open_symbolic(self.mods, ranks_events, **kw)
+
+    def prove_ratio(self, p, num, den, label, detail=None, scale=100, places=2):
+        half = 0.5 / (10 ** places)
+        if den == 0:
+            return True
+        return self.prove(abs(p - scale * num / den) <= half + 1e-9, label, detail)
+
+
 def _js(x):
     try:
         json.dumps(x)
@@ -200,10 +219,12 @@ def _job(args):
            "nontrivial": 0, "functions": [], "tie_paths": 0}
 
     from . import pdcore
+    from . import tracegen as TG
     base_mode = getattr(h, "TIE_MODE", "adversarial")
 
     def path_fn(ex_):
         pdcore.TIE_MODE["mode"] = sk.get("params", {}).get("tie_mode", base_mode)
+        TG.reset_registry()
         ctx = SymCtx(sk, ex_, mods)
         h.run(ctx)
         ctx.flush()
@@ -511,7 +532,23 @@ def replay_dir(path):
     return 1 if res.get("failures") else 0
 
 
+def _shim_main(outdir):
+    """run a stored case concretely on the model and print what fails (compare with result.json)."""
+    case = json.load(open(os.path.join(outdir, "case.json")))
+    from . import loader
+    h = importlib.import_module(f"harness.{case['harness']}")
+    mods = loader.load(h.MODULES)
+    ctx = ShimCtx(case["skeleton"], case["model"], os.path.join(outdir, "traces"), mods)
+    ctx.debug = True
+    h.run(ctx)
+    print(json.dumps({"failures": ctx.failures, "assume_failed": bool(ctx.assume_failed)}, indent=1, default=repr))
+
+
 if __name__ == "__main__":
     if sys.argv[1] == "--native":
         _native_main(sys.argv[2])
+        sys.exit(0)
+    if sys.argv[1] == "--shim":
+        sys.setrecursionlimit(10000)
+        _shim_main(sys.argv[2])
         sys.exit(0)
